@@ -292,12 +292,12 @@ def multitrack_source(rng, malformed=False):
     parts = []
     tb = None
     if rng.random() < 0.5:
-        tbv = rng.choice([48, 96, 120, 192, 480, 960, 9600, 32767, rng.randint(48, 32767), 1, 0, 47, -5])
+        tbv = rng.choice([48, 96, 120, 192, 480, 960, 9600, 32767, rng.randint(48, 32767), 1, 0, 47, -5, 32768, 40000, 65536, 70000])
         kw = rng.choice(["TimeBase", "TIMEBASE", "Timebase", "System.TimeBase", "SYSTEM.TimeBase"])
         form = rng.choice(["%s(%d)", "%s=%d", "%s = %d", "%s(%d);"])
         if tbv < 0 and "=" in form: form = "%s(%d)"
         parts.append(form % (kw, tbv))
-        tb = max(48, tbv)
+        tb = min(max(48, tbv), 32767)      # the division of the header is a positive 15-bit number
     else:
         tb = 96
     ntr = rng.choice([1, 2, 3, 5, 12])
